@@ -1,6 +1,7 @@
 import Sif.Proofs.C18
 import Sif.Proofs.C18Bucket
 import Sif.Proofs.C18Fair
+import Sif.Proofs.C18Lppd
 import Sif.Spec.C18
 /-
   C18 — Reward and distribution payouts are pro rata to provider units.  Property theorems only.
@@ -22,6 +23,22 @@ theorem pool_payouts_clamped {rowanPd : Dec} {pu : Nat} {lps : List LP} {l : Lis
     (h : collectProviderDistribution rowanPd pu lps = .ok (l, tot)) :
     ∃ cap : Nat, (cap : Int) = rowanPd.roundInt ∧ tot ≤ cap ∧ tot = amtSum l :=
   collectProviderDistribution_spec h
+
+/-- **LPPD / depth-reward payout of one pool, any number of providers.**  With D = the pool's distribution
+    amount (`rowanPd`, an sdk.Dec) and provider units that do not exceed the pool units (C02), the amounts
+    `CollectProviderDistribution` hands out name the providers in store order, the i-th is at most its share
+    u_i/U of D plus one base unit plus D·10⁻¹⁸ and at least its share minus (n+1)·(1 + D·10⁻¹⁸) + ½ — the
+    running clamp lets later providers absorb the rounding of earlier ones; all n, all magnitudes. -/
+theorem pool_payouts_fair {pd : Dec} {pu : Nat} {lps : List LP} {l : List (String × Nat)} {tot : Nat}
+    (hpu : 0 < pu) (hpd : 0 ≤ pd.i) (hsum : lpUnitsSum lps ≤ pu)
+    (h : collectProviderDistribution pd pu lps = .ok (l, tot)) :
+    l.length = lps.length ∧
+    ∀ i (h1 : i < lps.length) (h2 : i < l.length),
+      (l[i]'h2).1 = (lps[i]'h1).addr ∧
+      ((l[i]'h2).2 : ℚ) ≤ ((lps[i]'h1).units : ℚ) / pu * ((pd.i : ℚ) / P) + 1 + (pd.i : ℚ) / P / P ∧
+      ((lps[i]'h1).units : ℚ) / pu * ((pd.i : ℚ) / P) - ((lps.length : ℚ) + 1) * (1 + (pd.i : ℚ) / P / P) - 1 / 2
+        ≤ ((l[i]'h2).2 : ℚ) :=
+  lppd_amounts_fair hpu hpd hsum h
 
 /-- depth rewards: the pool rewards of one block sum to the minted amount, which is at most the
     block distribution — for any number of pools -/
